@@ -34,18 +34,19 @@ Close(q, r, slack) ==
     ELSE Abs(q * r[2] - r[1] * QScale) <= (2 + slack) * r[2]
 
 FieldMatches(e, k, f, taintd) ==
-    \/ taintd
-    \/ /\ (IsVal(f.r) => e.cls[k] = "fin")
+    IF taintd THEN TRUE ELSE
+       /\ (IsVal(f.r) => e.cls[k] = "fin")
        /\ ((f.cls = "exact" /\ IsVal(f.r) /\ f.r[2] = 1) => e.lat[k] = f.r[1])
        /\ ((f.cls \in {"exact", "tau"} /\ f.dim \in {"level", "spread", "ratio"}) => Close(e.q[k], f.r, 0))
 
 \* ob: the specification's observation for this event (obs'[Len(obs')])
 Matches(e, ob) ==
     CASE e.op \in {"s", "b"} ->
-            \/ ob.taint
-            \/ /\ Len(ob.f) = Len(e.cls)
-               /\ \A k \in 1..Len(ob.f) : FieldMatches(e, k, ob.f[k], FALSE)
-               /\ ob.t = e.t                                   \* calls since construction / reset, as the driver counted them
+            \* IF, not a disjunction: inside an action TLC would explore both disjuncts
+            IF ob.taint THEN TRUE
+            ELSE /\ Len(ob.f) = Len(e.cls)
+                 /\ \A k \in 1..Len(ob.f) : FieldMatches(e, k, ob.f[k], FALSE)
+                 /\ ob.t = e.t                                 \* calls since construction / reset, as the driver counted them
       [] e.op = "save" -> e.len <= ob.bound
       [] OTHER -> TRUE
 
